@@ -168,10 +168,11 @@ Example C04_document_push_discards_open_groups :
   which (run [Push None; Catcode 64 11; Push (Some docB)] init_state) 64 = 11.
 Proof. vm_compute. split; reflexivity. Qed.
 
-(* known finding C04-number-lookahead (program level), narrowed by /repo c654904: when the digits of a number are directly
-   followed by the closing token - {\catcode`\@=11} - TeX.readSequence still pulls that token through the expanding iterator, so the
-   closing brace is executed before the assignment; the history the implementation really runs is the second one below, and the
-   change is made outside.  (With a blank or \relax after the digits the first history is run: main streams.) *)
+(* Historical remark (former known finding C04-number-lookahead, program level; repaired in /repo by c654904, 076499b, 9658874):
+   the number reader used to pull the token after the digits through the expanding iterator, so in {\catcode`\@=11} the closing
+   brace was executed before the assignment: the implementation ran the second history below instead of the first, and the change
+   was made outside the group.  The statement is a fact about the Model's histories (it still holds of the Model); the implementation
+   now runs the first history, and such inputs are ordinary members of the main program streams. *)
 Example C04_lookahead_reorder_refuted :
   which (run [Push None; Catcode 64 11; Pop None] init_state) 64 = which init_state 64 /\
   which (run [Push None; Pop None; Catcode 64 11] init_state) 64 <> which init_state 64.
